@@ -114,6 +114,8 @@ def run(ctx):
         gas = rng.uniform(5, 60, nd) * (rng.random(nd) > 0.25)
         pres = rng.uniform(800, 3500, nd)
         pres[rng.choice(nd, 2, replace=False)] = np.nan
+        prod_days = np.nonzero(gas > 0)[0]
+        pres[rng.choice(prod_days[1:], 2, replace=False)] = np.nan   # gauge down on producing days too
         prod = pd.DataFrame({"Days": np.arange(nd) * 1.0, "Gas": gas, "Pressure": pres, "Other": 1.0})
         filt = bool(k % 2 == 0)
         if not filt:
@@ -149,6 +151,20 @@ def run(ctx):
                 bad("a fitted parameter lies outside its declared limits", inp, dict(parameter=nm, value=fit[nm]))
         if len(result.residual) != nk:
             bad("rows without production or pressure are not excluded (or others are) when filtering is requested", inp, dict(residual_len=len(result.residual), expected=nk))
+        else:
+            # what was fitted: the residual lmfit reports at the fitted parameters must be M x (library recovery for the RETAINED rows'
+            # pressure history, re-indexed days 0..n-1 over tau) minus the cumulative production OF THE RETAINED ROWS
+            with warnings.catch_warnings():
+                warnings.simplefilter("ignore")
+                fpk = FlowProperties(pvt, fit["p_initial"])
+                resk = SinglePhaseReservoir(80, float(pfk[0]), fit["p_initial"], fpk)
+                resk.simulate(np.arange(nk) / fit["tau"], pressure_fracface=pfk)
+                want = fit["M"] * np.asarray(resk.recovery_factor(), float) - cum
+            if not np.allclose(np.asarray(result.residual, float), want, rtol=1e-7, atol=1e-7 * max(1.0, float(cum[-1]))):
+                bad("the fitted residual is not M x (library recovery for the retained rows) minus the cumulative production of the retained rows",
+                    dict(**inp, missing_pressure_on_producing_days=int(((prod["Gas"] > 0) & prod["Pressure"].isna()).sum())),
+                    dict(residual=[float(x) for x in np.asarray(result.residual)[:4]], expected=[float(x) for x in want[:4]],
+                         max_abs_diff=float(np.abs(np.asarray(result.residual, float) - want).max())))
         if window == 1:
             with warnings.catch_warnings():
                 warnings.simplefilter("ignore")
